@@ -67,6 +67,8 @@ class Build:
     def __exit__(self, *a):
         if not self.keep:
             shutil.rmtree(self.dir, ignore_errors=True)
+        if getattr(self, "shm", None):
+            shutil.rmtree(self.shm, ignore_errors=True)
 
     # ---- R0 generated sources
     def generate(self, libzip=False):
@@ -162,7 +164,13 @@ class Build:
     def run_env(self, extra=None):
         home = os.path.join(self.dir, "home")
         env = dict(os.environ)
-        env.update({"HOME": home, "EGO_CONFIG_DIR": os.path.join(home, ".ego"), "TMPDIR": os.path.join(self.dir, "tmp"),
+        # run-time scratch (SQLite files, user stores) lives on a memory file system when there is one: the
+        # simulated runs create and delete thousands of small database files and fsync dominates otherwise
+        tmp = os.path.join(self.dir, "tmp")
+        if os.path.isdir("/dev/shm") and os.access("/dev/shm", os.W_OK) and not os.environ.get("VERIF_NO_SHM"):
+            self.shm = os.path.join("/dev/shm", os.path.basename(self.dir))
+            tmp = os.path.join(self.shm, "tmp")
+        env.update({"HOME": home, "EGO_CONFIG_DIR": os.path.join(home, ".ego"), "TMPDIR": tmp,
                     "EGO_PATH": os.path.join(self.dir, "egopath")})
         os.makedirs(env["TMPDIR"], exist_ok=True)
         if extra:
